@@ -159,7 +159,7 @@ def main():
              'kind_free_text': 'python rule engines over the fact base: dataflow (ED, EA, KBU, IC), dominance (CI, FR), '
                                'delegation/conversion tables (DG), key tables (KT/KV), spec constants (SC), sibling '
                                'agreement (SS), unsafe guards (UG)'},
-            {'name': 'witness', 'path': 'witness/', 'serves_properties': [p for p in ('C01', 'C08', 'C18', 'C20') if p in claimed],
+            {'name': 'witness', 'path': 'witness/', 'serves_properties': [p for p in ('C18', 'C20') if p in claimed],
              'kind_free_text': 'compile_fail doctests with compiling twins (cargo +nightly test --doc) pinning privacy and '
                                'borrow facts the MIR rules assume (thorough tier)'},
         ],
